@@ -976,6 +976,61 @@ def check_split_tol(inp):
     fails += qsparse_fail(B0, [qd0, qD[0], -np.asarray(qb)], 'A0') + qsparse_fail(B1, [qd1, np.asarray(qb), -qD[1]], 'A1')
     return fails
 
+
+# ------------------------------------------------------------------------------------------- C14
+
+@check('krylov')
+def check_krylov(inp):
+    import pytenet.krylov as K
+    alg = inp['alg']; m = inp['m']
+    A = arr(inp['A']); v = arr(inp['v'])
+    if np.all(A.imag == 0) and np.all(v.imag == 0):
+        A = A.real.astype(float); v = v.real.astype(float)
+    n = len(v)
+    if not np.any(v):
+        return []
+    f = lambda x: A @ x
+    fails = []
+    try:
+        if alg in ('lanczos', 'arnoldi'):
+            if alg == 'lanczos':
+                alpha, beta, V = K.lanczos_iteration(f, v.copy(), m)
+                k = V.shape[1] if V.ndim == 2 else -1
+                if V.ndim != 2 or V.shape[0] != n or len(alpha) != k or len(beta) != k - 1 or not 1 <= k <= m:
+                    return [f'inconsistent output sizes: len(alpha)={len(alpha)}, len(beta)={len(beta)}, V{V.shape}']
+                T = np.diag(alpha) + np.diag(beta, 1) + np.diag(beta, -1)
+                if np.any(np.asarray(beta) <= 0):
+                    fails.append('non-positive off-diagonal on a non-breakdown step')
+                if np.iscomplexobj(alpha):
+                    fails.append('alpha is not real')
+            else:
+                H, V = K.arnoldi_iteration(f, v.copy(), m)
+                k = V.shape[1] if V.ndim == 2 else -1
+                if V.ndim != 2 or V.shape[0] != n or H.shape != (k, k) or not 1 <= k <= m:
+                    return [f'inconsistent output sizes: H{H.shape}, V{V.shape}']
+                T = H
+                if np.any(np.abs(np.tril(H, -2)) > 0):
+                    fails.append('H is not upper Hessenberg')
+            sc = max(1.0, float(np.linalg.norm(A)))
+            # relations are only required while the Krylov space has the requested dimension (well-conditioned case)
+            Kmat = np.array([np.linalg.matrix_power(A, j) @ v for j in range(k)]).T
+            if np.linalg.matrix_rank(Kmat, tol=1e-8 * sc ** max(k - 1, 1) * float(np.linalg.norm(v))) == k and k <= 2:
+                if not np.allclose(V.conj().T @ V, np.identity(k), atol=1e-8):
+                    fails.append('Krylov vectors are not orthonormal')
+                if not np.allclose(V.conj().T @ A @ V, T, atol=1e-8 * sc):
+                    fails.append('projected map V^H A V differs from the returned matrix')
+        elif alg == 'eigh':
+            w, u = K.eigh_krylov(f, v.copy(), m, 1)
+            if len(w) != 1 or u.shape != (n, 1):
+                fails.append(f'eigh_krylov output shapes {np.shape(w)}, {u.shape}')
+        else:
+            r = K.expm_krylov(f, v.copy(), 0.3, m, hermitian=(alg == 'expm_h'))
+            if np.shape(r) != (n,):
+                fails.append(f'expm_krylov output shape {np.shape(r)}')
+    except Exception as e:
+        return [f'{alg} raised {type(e).__name__}: {e}']
+    return fails
+
 # -------------------------------------------------------------------------------------------
 
 def main():
